@@ -590,7 +590,7 @@ def check_pair(case):
 
 
 def replay(case):
-    from checks import c19_cross, c19_model  # noqa: F401  (their case kinds register on import)
+    from checks import c19_cross, c19_model, c19_payload  # noqa: F401  (their case kinds register on import)
     return _replay(case)
 
 
@@ -636,7 +636,11 @@ def harnesses(tier, seed):
         if a == names[0]:
             ctx.sample({"first": a, "second": "each of the other %d remote datasets" % (len(names) - 1)})
     hs.append({"name": "dataset-pairs", "body": pairs_body, "bound_text": "all ordered pairs of remote datasets"})
-    from checks import c19_model, c19_cross
+    from checks import c19_model, c19_cross, c19_payload
+    pbody, psizes = c19_payload.body_factory(tier)
+    hs.append({"name": "payload-shapes-and-sizes", "body": pbody,
+               "bound_text": "plain / gzip / 2- and 3-member gzip; sizes %s (2^k+1 and around every integer constant of the loader's source); "
+                             "one changed byte in the first chunk, after each chunk boundary, in the last bytes" % psizes})
     hs.extend(c19_cross.harnesses(tier, seed))
     hs.extend(c19_model.harnesses(tier, seed))
     return hs
